@@ -22,6 +22,10 @@ use crate::eval::runtime::slots::LocalSlotIdCapturedOrNot;
 use crate::syntax::AstModule;
 use crate::values::FrozenStringValue;
 use crate::values::Value;
+use crate::values::ValueLike;
+use crate::values::layout::value_captured::FrozenValueCaptured;
+use crate::values::layout::value_captured::ValueCaptured;
+use crate::values::layout::value_captured::value_captured_get;
 
 impl<'v> Evaluator<'v, '_, '_> {
     /// Evaluate statements in the existing context. This function is designed for debugging,
@@ -77,9 +81,12 @@ impl<'v> Evaluator<'v, '_, '_> {
                 if pushed.contains_key(name) {
                     continue;
                 }
+                // A local captured by a nested function lives in a cell:
+                // the statements see the value in the cell, not the cell.
                 let value = self
                     .current_frame
-                    .get_slot_slow(LocalSlotIdCapturedOrNot(slot as u32));
+                    .get_slot_slow(LocalSlotIdCapturedOrNot(slot as u32))
+                    .and_then(captured_cell_content);
                 pushed.insert(*name, (slot as u32, value.is_some()));
                 if let Some(value) = value {
                     self.module_env.set(name, value);
@@ -110,8 +117,16 @@ impl<'v> Evaluator<'v, '_, '_> {
                         }
                         _ => continue,
                     }
-                    self.current_frame
-                        .set_slot_slow(LocalSlotIdCapturedOrNot(slot as u32), value)
+                    let id = LocalSlotIdCapturedOrNot(slot as u32);
+                    match self
+                        .current_frame
+                        .get_slot_slow(id)
+                        .and_then(|cell| cell.downcast_ref::<ValueCaptured>())
+                    {
+                        // Keep the cell (nested functions hold it), change its content.
+                        Some(cell) => cell.set(value),
+                        None => self.current_frame.set_slot_slow(id, value),
+                    }
                 }
             }
             for (name, slot) in self.module_env.mutable_names().all_names_and_slots() {
@@ -124,6 +139,17 @@ impl<'v> Evaluator<'v, '_, '_> {
         }
 
         res
+    }
+}
+
+/// The value of a local: what its cell holds if it is captured by a nested function.
+fn captured_cell_content<'v>(v: Value<'v>) -> Option<Value<'v>> {
+    if v.downcast_ref::<ValueCaptured>().is_some()
+        || v.downcast_ref::<FrozenValueCaptured>().is_some()
+    {
+        value_captured_get(v)
+    } else {
+        Some(v)
     }
 }
 
